@@ -6,6 +6,7 @@ from ..model import Program, AnalysisError, own_nodes, norm, names_in, FuncInfo,
 from ..cfg import cfg_of
 from ..guards import Env, walk
 from ..report import Report
+from ..normalize import alias_view
 from ..util import helper_scopes, inline_temps, callee_last, parents, enclosing_stmt, depends_on
 
 FM = 'fggs.formats'
@@ -52,7 +53,7 @@ def run(prog: Program, rep: Report, tier: str) -> None:
     rep.not_decided += ['isomorphism after node renumbering', 'equality of dense weights after the round trip', 'verbatim second round trip']
     pairs = [('hrg_to_json', 'json_to_hrg'), ('fgg_to_json', 'json_to_fgg')]
     for w, r in pairs:
-        wf, rf = prog.func(FM, w), prog.func(FM, r)
+        wf, rf = prog.func(FM, w), alias_view(prog.func(FM, r))
         wa, wc = written_keys(wf)
         rr, ro = read_keys(rf)
         # keys read inside discriminator branches belong to the to_json writers (checked below)
@@ -99,7 +100,7 @@ def discriminator_reader_keys(rf: FuncInfo) -> Set[str]:
 
 def discriminators(rep: Report, prog: Program) -> None:
     rule = 'C14-D1 discriminators'
-    rf = prog.func(FM, 'json_to_fgg')
+    rf = alias_view(prog.func(FM, 'json_to_fgg'))       # `function = d['function']` read through
     tests = _disc_tests(rf)
     writers: List[Tuple[ClassInfo, FuncInfo, str, str, Set[str]]] = []
     for base_mod, base in (('fggs.domains', 'Domain'), ('fggs.factors', 'Factor')):
@@ -207,6 +208,30 @@ def index_checks(rep: Report, prog: Program) -> None:
           jdeps = depends_on(f, {p for p, a in ren.args.items() if names_in(a) & top_jdeps})
           built = appended(f) | {p for p, a in ren.args.items() if isinstance(a, ast.Name) and a.id in top_built}
       cfg = cfg_of(f)
+      # (b) a helper that looks up ONE index it is given (`_node_by_number(nodes, vi, ...)` called per element): the index
+      #     parameter is checked on the paths from the helper's entry
+      if f is not top:
+          comp_bound = {n_ for c_ in ast.walk(top.node) if isinstance(c_, ast.comprehension) and names_in(c_.iter) & top_jdeps for n_ in names_in(c_.target)}
+          for p_, a_ in ren.args.items():
+              if not (isinstance(a_, ast.Name) and (a_.id in top_jdeps or a_.id in comp_bound)):
+                  continue
+              uses_p = [x for x in own_nodes(f.node) if isinstance(x, ast.Subscript) and isinstance(x.ctx, ast.Load) and isinstance(x.slice, ast.Name) and x.slice.id == p_
+                        and isinstance(x.value, ast.Name) and x.value.id in built and not any(isinstance(l_, ast.For) and p_ in names_in(l_.target) for l_ in own_nodes(f.node))]
+              for u in uses_p:
+                  found += max(1, sum(1 for c in ast.walk(top.node) if isinstance(c, ast.Call) and isinstance(c.func, ast.Name) and c.func.id == f.name))
+                  L = u.value.id
+                  unode = cfg.node_of(enclosing_stmt(f, u))
+                  raises = {n for n, nd in cfg.nodes.items() if nd.kind == 'raise'}
+                  bad = []
+                  for v in (-2, -1, 0, 1, 2, 3):
+                      r = walk(cfg, cfg.entry, Env(ints={p_: v, f"len({L})": 2}), stop=lambda n: n in raises, unknown='both')
+                      reached = unode in r
+                      if 0 <= v < 2 and not reached:
+                          bad.append(f"{p_}={v} (valid) never reaches {norm(u)}")
+                      if not (0 <= v < 2) and reached:
+                          bad.append(f"{p_}={v} reaches {norm(u)} unchecked" + (': Python indexes from the end instead of rejecting' if v < 0 else ''))
+                  rep.ob(rule, f.fq(), f"{norm(u)} with {p_} = {norm(a_)} from JSON", f.loc(u), not bad,
+                         '; '.join(bad) if bad else f"reached exactly for 0 <= {p_} < len({L}); other values raise (values -2..3 with len=2 evaluated)")
       for lp in [n for n in own_nodes(f.node) if isinstance(n, ast.For)]:
           if not isinstance(lp.target, ast.Name) or not (names_in(lp.iter) & jdeps):
               continue
